@@ -37,6 +37,15 @@ FORBIDDEN = [
 ]
 
 os.environ[GUARD] = "1"
+
+# Byte-code cache outside /repo and /verif: without it every process recompiles the
+# 2.6 MB literal in compiler/front_end/generated/cached_parser.py (tens of seconds).
+# Keyed by absolute source path and validated by mtime+size, so it is only a cache.
+_PYCACHE = os.environ.get("VERIF_PYCACHE", "/var/tmp/embverif-pycache")
+sys.dont_write_bytecode = False
+sys.pycache_prefix = _PYCACHE
+os.environ["PYTHONPYCACHEPREFIX"] = _PYCACHE
+os.environ.pop("PYTHONDONTWRITEBYTECODE", None)
 if REPO not in sys.path:
     sys.path.insert(0, REPO)
 
